@@ -7,15 +7,15 @@ CHECKS = {
  "C01": dict(text="Lean theorem C01_eval_eq_spec_partial: for every well-formed table (any number of dimensions, any orders, any admissible knot vector incl. the minimum length and repeated knots, arbitrary padding values) and every point the lookup accepts, the model of ndsplineeval (margin loops, de Boor recurrence, re-indexing, block walk) equals the sum over ALL coefficients of coefficient x product of Cox-de Boor basis functions with the property's knot convention, over any linearly ordered field; C01_callOp for operator(). Tied to the code by running the same Lean definitions at IEEE double/float storage (bit-identical to ndsplineeval<double|float> on every case) and by comparing the C++ result with the exact rational specification inside a rounding envelope.",
              note="Trusted: Lean kernel + 3 standard axioms; hand-written model validated bit-for-bit each run; floating-point rounding is outside the theorem (envelope K*u*S assumed, worst measured ratio reported); one input class is excluded from the theorem and listed as known finding (x == knots[naxes] with an empty last interval; Lean witness C01_degenerate_upper_end).",
              technique="Lean 4 proof (induction over the de Boor recurrence, window/sum lemmas over dimensions) + bit-exact differential run of the model + exact-rational oracle", ref="4/C01"),
- "C02": dict(text="Lean theorems: derivative along an order-0 dimension is zero (code and spec), gradient lanes are built from exactly the rows of plain / single-derivative evaluation for every arithmetic (C02_gradient_rows; so lane 0 = value, lane 1+d = bitmask derivative, bit for bit). The identity between the derivative rows and the true derivative is carried by the exact-rational oracle (knot-difference formula applied to the Cox-de Boor specification) and by the bit-exact run of the model of bspline_deriv_nonzero / bspline_deriv / ndsplineeval_deriv; partial as a proof.",
-             note="Partial: the theorem 'derivative row = derivative of the specification piece' is not yet proved in Lean (checked per input in exact arithmetic); rounding envelope assumed; two input classes are known findings (degenerate upper end; derivative order >= 2 exactly at a knot >= knots[naxes]).",
-             technique="Lean 4 proof (law-free row identities) + bit-exact differential run + exact-rational derivative oracle", ref="4/C02"),
- "C03": dict(text="Lean theorems C03_dispatch_sound_templated/_generic about the dispatch table REGENERATED from bspline_eval.h on every run (tools/gen_dispatch.py): for every list of per-dimension orders (unbounded) the routine pair selected by get_evaluator has template arguments that describe exactly that table; SIMD capacity constants regenerated; value/derivative lanes of the gradient are operation-for-operation the rows of plain evaluation for every arithmetic. Tied to the code by the translator plus a bitwise comparison, in the real binary, of generic members / evaluator objects (whatever they dispatch to) / call operators / C interface / gradient lanes, built with and without PHOTOSPLINE_NO_EVAL_TEMPLATES, and of the generic path with the model.",
-             note="Trusted: tools/gen_dispatch.py (fails closed), Lean kernel. Loop bodies of the templated cores are compared with the generic core only in the binary (bitwise), not in Lean.",
-             technique="translator (source -> Lean table) + Lean 4 proof by decide over the generated table lifted to all order lists + bitwise path comparison", ref="4/C03"),
- "C05": dict(text="Lean theorems: NaN coordinates are rejected by the lookup before any search (C05_nan_lookup_rejected), non-NaN coordinates terminate with centres in [order, nknots-order-2] (C04). Tied to the code by an ASan+UBSan+assert build of every entry point on tables allocated with the library's own idiom (red zones exactly at +-order), with arbitrary IEEE doubles (NaN payloads, infinities, denormals, knots and neighbours), and by bit comparison of every returned value with the model.",
-             note="Partial: index-range theorems for the evaluation routines are not yet in Lean (observed under sanitizers; the model's bit-exact agreement covers index arithmetic indirectly). Absence of UB is observed, not proved.",
-             technique="Lean 4 proof (lookup totality incl. NaN) + sanitizer differential run", ref="4/C05"),
+ "C02": dict(text="Lean theorems, over any linearly ordered field, any number of dimensions, any orders and admissible knot vectors: C02_mask_eval_eq_spec_partial (evaluation with any derivative bitmask = sum over all coefficients of coefficient x product of basis functions or their knot-difference derivative formula, one-sided convention of C01), C02_deriv_eval_eq_spec_partial (ndsplineeval_deriv with arbitrary per-dimension derivative orders = the iterated formula), C02_formula_is_derivative (the formula is Polynomial.derivative of the polynomial piece, repeated knots allowed), C02_gradient_rows (value-plus-gradient lanes are exactly the rows of plain / single-derivative evaluation for every arithmetic, so lane 0 is the plain value bit for bit), order-0 and above-order derivatives are zero. Tied to the code by running the same definitions at IEEE double/float storage (bit-identical to ndsplineeval, ndsplineeval_deriv, ndsplineeval_gradient on every case) and by comparing the C++ results with the exact rational derivative inside a rounding envelope.",
+             note="Two input classes are excluded from the theorems and listed as known findings (degenerate upper end as in C01; derivative order >= 2 exactly at a knot >= knots[naxes], where the recursive routine is right-continuous). Iterating Polynomial.derivative k times is proved for k = 1 only; for k >= 2 the iterated knot-difference formula is the specification. Rounding envelope assumed.",
+             technique="Lean 4 proof (de Boor recurrence, derivative combination, product-rule derivative = knot-difference formula, window/sum lemmas) + bit-exact differential run + exact-rational oracle", ref="4/C02"),
+ "C03": dict(text="Lean theorems: C03_dispatch_sound_templated/_generic about the dispatch table REGENERATED from bspline_eval.h on every run (for every list of per-dimension orders the routine pair selected by get_evaluator has template arguments describing exactly that table); C03_generic_loop_is_walk / C03_templated_loop_is_generic / C03_selected_core_eq_generic: the odometer loops as written (while/break of the generic core, for+tail of the templated cores, carry loop, incremental basis_tree update) equal the nested block walk for EVERY arithmetic, and the selected core has the table's chunk count, hence returns bit for bit what the generic core returns; gradient value/derivative lanes are operation-for-operation the rows of plain evaluation. Tied to the code by the translator plus a bitwise comparison, in the real binary, of generic members / evaluator objects / call operators / C interface / gradient lanes, built with and without PHOTOSPLINE_NO_EVAL_TEMPLATES, and of the generic path with the model.",
+             note="Trusted: tools/gen_dispatch.py (fails closed), Lean kernel. The templated loop bodies are modelled by their shape and chunk count (template arguments substituted for run-time orders); the SIMD lane loops are modelled as independent scalar walks.",
+             technique="translator (source -> Lean table) + Lean 4 proof (decide over the generated table lifted to all order lists; induction over odometer digits) + bitwise path comparison", ref="4/C03"),
+ "C05": dict(text="Lean theorems: a NaN coordinate is rejected before any search and every non-NaN coordinate terminates with centres in [order, nknots-order-2] (C05_nan_lookup_rejected + C04); C05_eval_reads_owned: for EVERY arithmetic (arbitrary comparison outcomes: NaN, infinities, anything) and centres in range, ndsplineeval / ndsplineeval_deriv (any bitmask, any derivative orders) depend only on knots[-order .. nknots+order-1] and coefficients[0 .. ncoef-1], i.e. every index they use lies in owned storage, and all loops are fuel-bounded; the same for the gradient rows; requests beyond the SIMD capacity are refused. Tied to the code by an ASan+UBSan+assert build of every entry point on tables allocated with the library's own idiom (red zones exactly at +-order), with arbitrary IEEE doubles, and by bit comparison of every returned value with the model.",
+             note="The theorem is about the model's index arithmetic (validated bit-for-bit against the code each run); absence of UB in the compiled code is observed under sanitizers, not proved. Uninitialised-but-owned padding may be read (allowed by the property; C01 proves results do not depend on it).",
+             technique="Lean 4 proof (dependence-on-owned-memory by congruence, any arithmetic) + sanitizer differential run", ref="4/C05"),
  "C04": dict(text="Lean theorems C04_searchAxis / C04_searchCenters (any linear order, any number of dimensions, any well-formed knot vector): lookup rejects exactly outside (first,last], always terminates, centre within [order, nknots-order-2] and bracketing; tied to the code by exact equality of searchcenters / tablesearchcenters / evaluator.searchcenters with the executable model on order-isomorphic integer keys, plus the theorem's right-hand side evaluated directly on the implementation's answers.",
              note="Trusted: Lean kernel; axioms propext/Classical.choice/Quot.sound; hand-written model of searchcenters validated differentially each run (not translated); doubles compared through an order-isomorphic integer key; uint32 arithmetic assumed not to wrap (nknots < 2^31).",
              technique="Lean 4 proof (binary-search invariant by induction on fuel) + differential correspondence model vs code", ref="4/C04"),
